@@ -49,10 +49,13 @@ def main():
     # 4. a stale index in the projection
     e4 = copy.deepcopy(ev)
     e4[1]["convs"][0]["rpm"] = copy.deepcopy(ev[0]["convs"][0]["rpm"])
+    e4[2]["convs"][0] = copy.deepcopy(ev[2]["convs"][0]) if "same" not in ev[2]["convs"][0] else e4[2]["convs"][0]
     expect("4. a stale reverse_prefix_map is rejected by post/add/rpm", clauses(I, e4), lambda g: "post/add/rpm" in g)
     # 5. the input of chain silently changed (aliasing): frame clause
     e5 = copy.deepcopy(ev)
-    e5[3]["convs"][0]["recs"][0]["ps"].append(I("leaked"))
+    full = next(copy.deepcopy(e["convs"][0]) for e in reversed(ev[:3]) if "same" not in e["convs"][0])   # last full projection of converter 1
+    full["recs"][0]["ps"].append(I("leaked"))
+    e5[3]["convs"][0] = full
     expect("5. a change of an input converter during chain is rejected by frame/chain/recs", clauses(I, e5), lambda g: "frame/chain/recs" in g)
     # 6. wrong outcome
     e6 = copy.deepcopy(ev)
